@@ -241,6 +241,7 @@ def locations(vd, drv, wd, rng, tier):
     # entries bounded in five ways (two addresses, address and length, indices into .debug_addr, offsets from a base)
     for ver, form in ((4, "exprloc"), (5, "exprloc"), (3, "block1"), (3, "loclist"), (2, "loclist"), (5, "loclist"), (5, "loclistx")):
         kids = []
+        cubase = 0x70000 if (ver, form) == (2, "loclist") else 0
         for e, atcode, atname in work:
             if atname == "data_member_location" and form in LISTS:
                 # data4 / data8 of DW_AT_data_member_location is read by libdw as a constant offset in every
@@ -267,7 +268,8 @@ def locations(vd, drv, wd, rng, tier):
                             val5.append((kind, 8, hi - lo + 8, ops))
                         else: val5.append((kind, lo, hi, ops))
                     val = val5
-                plan.append((did, form, ranges, atname))
+                # the entries of .debug_loc are offsets from the unit's base address (its low_pc)
+                plan.append((did, form, [(lo + cubase, hi + cubase, cs) for lo, hi, cs in ranges] if ver < 5 else ranges, atname))
             else:
                 c = concretize(e["ops"], rng)
                 if ver == 3 and any(x[0] in (0x9e, 0x9f, 0xf3, 0x9d) for x in c) and False:
@@ -278,7 +280,7 @@ def locations(vd, drv, wd, rng, tier):
                                                                             {"name": atcode, "form": form, "value": val}]})
         units.append({"kind": "cu", "version": ver, "table": len(units),
                       "root": {"id": newid(), "tag": 0x11, "children": kids, "attrs": [{"name": 3, "form": "string", "value": "u%d" % ver},
-                                                                                     {"name": 0x11, "form": "addr", "value": 0}]}})
+                                                                                     {"name": 0x11, "form": "addr", "value": cubase}]}})
     o, offs, tabs = dwarfgen.build({"units": units}, wd, "loc")
     b = D.Built(o, offs)
     q = ("entry (offset == %d) [[@AT_%s [address low, address high, length, [elem [offset, label value, [value]]], "
